@@ -8,7 +8,7 @@
 //
 //	rule name=<enc> scope=<enc> rate=<int> drop=<0|1> down=<none|det<N>|dyn<N>|missing<N>>
 //	cond field=<enc> fields=<enc,enc..|-> op=<enc> dt=<enc> val=<valtok>      (appended to the last rule)
-//	span root=<0|1> <enc field>=<valtok> …                                       (appended to the trace)
+//	span root=<0|1> [kind=<s|e|l>] <enc field>=<valtok> …   (appended to the trace; e = span event, l = link)
 //	cleartrace
 //	eval seed=<n>      builds the real config + sampler + trace and runs GetSampleRate
 //
@@ -311,6 +311,7 @@ type ruleSpec struct {
 }
 
 type spanSpec struct {
+	kind string // "" ordinary span, "span_event", "link" (meta.annotation_type)
 	root bool
 	keys []string
 	vals []val
@@ -376,6 +377,10 @@ func (r *runner) Do(op []string) (string, bool) {
 			k, vt := a[:i], a[i+1:]
 			if k == "root" && (vt == "0" || vt == "1") {
 				sp.root = vt == "1"
+				continue
+			}
+			if a == "kind=e" || a == "kind=l" || a == "kind=s" {
+				sp.kind = map[string]string{"kind=e": "span_event", "kind=l": "link", "kind=s": ""}[a]
 				continue
 			}
 			v, ok := parseVal(vt)
@@ -460,6 +465,7 @@ func (r *runner) eval(seed int64) string {
 			m[k] = ss.vals[i].goVal(false)
 		}
 		sp := &types.Span{TraceID: trace.TraceID, Event: &types.Event{Data: types.NewPayload(mockCfg, m)}}
+		sp.Data.MetaAnnotationType = ss.kind
 		trace.AddSpan(sp)
 		if ss.root {
 			sp.IsRoot = true
@@ -735,7 +741,7 @@ func genCond(r *kit.Rng) string {
 	}
 	v := genCondValue(r, op, dt)
 	if field == string(config.NUM_DESCENDANTS) && r.Chance(70) && op != config.In && op != config.NotIn {
-		v = val{k: 'i', i: int64(r.Intn(5))}
+		v = val{k: 'i', i: int64(r.Intn(8))}
 	}
 	noteThresholds(v)
 	fs := "-"
@@ -833,6 +839,14 @@ func genTrace(r *kit.Rng) []string {
 	var ops []string
 	for i := 0; i < n; i++ {
 		parts := []string{"span", "root=" + b01(i == root)}
+		if i != root { // span events and links are elements of the trace too
+			switch r.Pick(66, 22, 12) {
+			case 1:
+				parts = append(parts, "kind=e")
+			case 2:
+				parts = append(parts, "kind=l")
+			}
+		}
 		for _, f := range plainFields {
 			if r.Chance(45) {
 				parts = append(parts, kit.Enc(f)+"="+spanValue(r).tok())
